@@ -131,10 +131,11 @@ pub struct Side {
     /// How often a passively opened endpoint was reset back to LISTEN. Every incarnation
     /// chooses a fresh initial sequence number (as a real stack does) and starts a new stream.
     pub incarnation: u8,
-    /// Set when the peer was reset back to LISTEN while this side was synchronised with the
-    /// incarnation that was reset: what that incarnation had written is all this side can
-    /// ever be owed (it never reopens), whatever later incarnations of the peer write.
-    pub owed_override: Option<Vec<u8>>,
+    /// What earlier incarnations of this (passively opened, reset) side had written, by their
+    /// initial sequence number: a peer synchronised with one of them is owed that stream.
+    pub old_streams: Vec<(u32, Vec<u8>)>,
+    /// IRS of the connection this side had when its TCB was released
+    pub last_irs: Option<u32>,
 }
 
 impl Side {
@@ -155,7 +156,8 @@ impl Side {
             close_ok: false,
             unseg_at_close: 0,
             incarnation: 0,
-            owed_override: None,
+            old_streams: vec![],
+            last_irs: None,
             life,
         }
     }
@@ -357,6 +359,11 @@ impl Sys {
     }
 
     fn release(&mut self, s: usize, how: &'static str) {
+        if let Some(sn) = self.side[s].snap() {
+            if sn.state != State::SynSent {
+                self.side[s].last_irs = Some(sn.irs);
+            }
+        }
         self.side[s].tcb = None;
         self.side[s].life = Life::Released(how);
     }
@@ -412,12 +419,9 @@ impl Sys {
                             // a new incarnation: what the reset connection had written is
                             // legitimately gone and is not owed to anybody
                             self.side[s].incarnation += 1;
-                            // a peer that is synchronised with the incarnation just reset stays
-                            // attached to it: it is owed that incarnation's stream and no more
-                            if let (Some(psn), Some(iss)) = (self.side[1 - s].snap(), old_iss) {
-                                if psn.irs == iss && psn.state != State::SynSent && self.side[1 - s].owed_override.is_none() {
-                                    self.side[1 - s].owed_override = Some(self.side[s].written.clone());
-                                }
+                            if let Some(iss) = old_iss {
+                                let w = self.side[s].written.clone();
+                                self.side[s].old_streams.push((iss, w));
                             }
                             self.side[s].written.clear();
                             self.side[s].written_at_close = None;
@@ -607,7 +611,7 @@ impl Sys {
                 side.life,
                 side.tcb,
                 side.written.len(),
-                side.owed_override.as_ref().map(|o| o.len()),
+                (side.old_streams.iter().map(|o| o.1.len()).collect::<Vec<_>>(), side.last_irs),
                 side.read,
                 side.writes_done,
                 side.ticks_done,
@@ -674,10 +678,21 @@ impl Sys {
         out
     }
 
-    /// The byte stream side `s` is owed: what its peer has written, or - if the peer was reset
-    /// while `s` was synchronised with it - what that incarnation had written.
+    /// The byte stream side `s` is owed: what the incarnation of its peer that it is (or was
+    /// last) synchronised with has written. Incarnations are told apart by their ISN = `s`'s IRS.
     pub fn owed(&self, s: usize) -> &Vec<u8> {
-        self.side[s].owed_override.as_ref().unwrap_or(&self.side[1 - s].written)
+        let w = 1 - s;
+        let irs = match self.side[s].snap() {
+            Some(sn) if sn.state != State::SynSent => Some(sn.irs),
+            Some(_) => None,
+            None => self.side[s].last_irs,
+        };
+        if let Some(irs) = irs {
+            if let Some((_, st)) = self.side[w].old_streams.iter().find(|(i, _)| *i == irs) {
+                return st;
+            }
+        }
+        &self.side[w].written
     }
 
     /// (O1) bytes read on each side are a prefix of the bytes written on the other.
